@@ -698,7 +698,7 @@ func Run(r *fw.Run) {
 		}
 	}
 	// 99 / 100 / 101 signature lines (distinct unknown signatures, then a good one)
-	for _, n := range []int{98, 99, 100, 101} {
+	for _, n := range []int{7, 8, 9, 15, 16, 17, 31, 32, 33, 63, 64, 65, 98, 99, 100, 101} {
 		var b strings.Builder
 		b.WriteString("a\n\n")
 		for i := 0; i < n; i++ {
